@@ -48,7 +48,7 @@ var c05Subsets = [][]string{{"local"}, {"ntlm"}, {"kerberos"}, {"openid", "local
 
 var c05Auths = []string{"absent", "empty", "bare:NTLM", "bare:Negotiate", "bare:Basic", "short:NTL", "short:Basi", "short:Negotiat", "lower:ntlm", "lower:basic", "junk", "bearer",
 	"basic-right", "basic-right", "basic-wrong-pass", "basic-unknown-user", "basic-empty-pass", "basic-undecodable", "basic-nocolon", "basic-two-lines-junk-first", "basic-two-lines-right-first",
-	"ntlm-right", "ntlm-right", "ntlm-wrong-pass", "ntlm-unknown-user", "ntlm-type3-first", "ntlm-type3-other-conn", "ntlm-again-after-success", "ntlm-again-after-success", "ntlm-unknown-user-empty-pass", "ntlm-type1-only", "ntlm-garbage", "negotiate-ntlm-right", "negotiate-garbage", "xNTLM-prefix", "krb-valid", "krb-valid", "krb-foreign-key"}
+	"ntlm-right", "ntlm-right", "ntlm-wrong-pass", "ntlm-unknown-user", "ntlm-type3-first", "ntlm-type3-other-conn", "ntlm-again-after-success", "ntlm-again-after-success", "ntlm-unknown-user-empty-pass", "in-for-another-users-out", "in-for-another-users-out", "ntlm-type1-only", "ntlm-garbage", "negotiate-ntlm-right", "negotiate-garbage", "xNTLM-prefix", "krb-valid", "krb-valid", "krb-foreign-key"}
 
 func genC05(t *rapid.T) c05Case {
 	c := c05Case{Subset: rapid.SampledFrom(c05Subsets).Draw(t, "subset")}
@@ -361,6 +361,11 @@ func runC05(c c05Case) *Violation {
 			ntlmFlow("NTLM", r.User, pass, true, false)
 		case "ntlm-type3-other-conn":
 			ntlmFlow("NTLM", r.User, pass, false, true)
+		case "in-for-another-users-out":
+			if v := c05ForeignIn(in, r, local, ntl, c.Subset); v != nil {
+				return v
+			}
+			continue
 		case "ntlm-again-after-success":
 			if v := c05AgainAfterSuccess(in, r, pass, type1, c.Subset); v != nil {
 				return v
@@ -738,4 +743,39 @@ func TestC05_CONC(t *testing.T) {
 		}
 		return binHealthQuick(in)
 	})
+}
+
+// c05ForeignIn: another user opens RDG_OUT_DATA (legacy) with correct credentials; then this user, with correct
+// credentials of his own, sends RDG_IN_DATA with the same connection identifier. The tunnel belongs to the user the
+// backend confirmed for its RDG_OUT_DATA: the request must not be accepted as its second half.
+func c05ForeignIn(in *gwproc.Inst, r c05Req, local, ntl bool, subset []string) *Violation {
+	if !local && !ntl {
+		return nil
+	}
+	other := strconv.Itoa(atoi(r.User)%9 + 1)
+	saved := c05ConnID
+	c05ConnID = sess.NewConnID()
+	defer func() { c05ConnID = saved }()
+	login := func(method, user string) ([]httpHead, net.Conn, bool) {
+		if local {
+			h, c, _, seed, _ := rawExchange(in, method, false, [][]string{{basicHeader(user, c05Password(user))}})
+			return h, c, seed
+		}
+		type1 := base64.StdEncoding.EncodeToString(ntlmx.Negotiate())
+		h, c, _, seed, _ := rawExchange2(in, method, false, "NTLM "+type1, func(ch []string) string { return ntlmType3([]string{"NTLM"}, ch, user, c05Password(user)) })
+		return h, c, seed
+	}
+	_, outConn, seedOK := login("RDG_OUT_DATA", other)
+	if outConn == nil || !seedOK {
+		return nil // the other user's half did not open: nothing to join
+	}
+	defer outConn.Close()
+	heads, inConn, _ := login("RDG_IN_DATA", r.User)
+	if inConn != nil {
+		inConn.Close()
+	}
+	if len(heads) > 0 && heads[len(heads)-1].Code == 200 {
+		return viol("c05/joined-another-users-tunnel", "enabled %v: user %s opened RDG_OUT_DATA with identifier %s; RDG_IN_DATA with the same identifier and the (correct) credentials of user %s was accepted (200) as the second half of that tunnel", subset, other, c05ConnID, r.User)
+	}
+	return nil
 }
